@@ -4,7 +4,13 @@ from harness.drivers import fuse
 
 def run(ck):
     q = ck.tier == "quick"
-    progs = fuse.commute_programs(ck.seed, 240 if q else 4000)
+    from harness import gen
+    from harness.drivers import contract
+    tids = gen.Tids()
+    progs = fuse.commute_programs(ck.seed, 240 if q else 4000, tids=tids)
+    for kind in ("abelian", "fermionic"):
+        progs += contract.sparse_rank4_programs(ck.seed, 80 if q else 1500, kind, tids=tids, salt="c06s4",
+                                                 rel_clause="C06.strategies_agree.sparse")
     ck.cov["rule"] = ("random contractible sparse pairs (abelian/fermionic): fused vs blockwise vs auto results equal "
                       "incl. index structure; contraction over fused pair after align_axes; fusing free legs before/after")
     ck.conform(progs)
